@@ -38,10 +38,7 @@ OWN = {
             DT + r'\w+\.(all_fields|all_required_fields|all_optional_fields|_filter_fields|'
                  r'get_all_subtypes_with_tags|_get_subtype_tags|set_attributes|check_attr_repr)$',
             API + r'\w+\.(normalize|linearize_\w+|add_\w+|get_\w+)$'],
-    'C03': [F + r'lexer\.', F + r'parser\.ParserFactory\.(p_error|parse)', F + r'frontend\.',
-            IG + r'(_instantiate_data_type|_populate_field_defaults|'
-                 r'_populate_route_attributes_helper)',
-            r'stone\.cli\.main$'],
+    'C03': [F, r'stone\.ir\.', r'stone\.cli\.main$'],
     'C04': [PT_RUNTIME, VAL + r'\w+\.validate\w*$', BASE + r'Attribute\.', SER + r'\w+\.(encode_|decode_|determine_struct_tree_subtype|make_stone_friendly)',
             SER + r'(json_|_strftime|_strptime|_make_)', BASE + r'(Struct|Union)\.__(eq|ne)__$'],
     'C05': [PT_RUNTIME, VAL + r'\w+\.validate\w*$', BASE + r'Attribute\.', SER + r'\w+\.encode', SER + r'_strftime'],
